@@ -23,6 +23,7 @@ var c16Sinfuls = []string{
 	"<10.0.0.7:9618?addrs=10.0.0.7-9618&noUDP&sock=startd_1234_abcd>",
 	"<10.0.0.7:9618?sock=startd_1#2_ab#cd>",
 	"<[fd00::7]:9618?addrs=[fd00--7]-9618&noUDP>",
+	"<10.0.0.7:9618?noUDP&sock=startd_77#[slot1_2]>", // '#' directly followed by '[' inside the address, as before the session-info block
 }
 
 var c16Ciphers = []string{"", "AES", "AESGCM", "AES,BLOWFISH", "AES,3DES,BLOWFISH"}
@@ -361,7 +362,7 @@ func c16History(res *vlib.Result, hist []string) {
 func C16Plan() *vlib.Plan {
 	p := &vlib.Plan{
 		Property: "C16", Level: "exploration",
-		Rule:   "E-ENUM full product: sinful in {plain, with params, with sock=, with embedded '#', bracketed IPv6} x Encryption/Integrity in {unset, true, false}^2 x cipher list in {'', AES, AESGCM, 'AES,BLOWFISH', 'AES,3DES,BLOWFISH'} x ValidCommands in {none, [443], [443,444]} x lifetime in {0, 60 s, 20 years, 100 years (expiry beyond 2^31-1 s)} x version in {'', long, short} x direction (importer dials / minter dials) x tag; each pair: cache entries compared (id, key, Encryption/Integrity/cipher/commands, expiry), public form searched for the secret, policy text render/parse fixed point, then a real resumption handshake (no negotiation on the wire) with ping/pong both ways, by session id and - when the claim lists commands - by command (the dialer's cache must route tag, peer address and command to the claim session). Plus, for every position of the secret, its replacement by up to 7 substitutes (another digit, the same letter in the other case, the next character, a non-hex letter, an upper-case hex letter, a blank) in both directions, and every history of <= 3 (thorough 4) imports into ONE importer cache over {intact id, id with the first / last secret character altered, intact id of a second claim}: whenever the last import of the claim is the intact id, key and expiry must equal the minter's and resumption must work both ways. Plus the library client (client.ConnectAndAuthenticateWithConfig) over loopback sockets: 8 address templates x {direct, scripted shared_port front end} x direction x tag, by command: the claim session is resumed with ping/pong. Non-trivial = mint succeeded; ids distinct by construction.",
+		Rule:   "E-ENUM full product: sinful in {plain, with params, with sock=, with embedded '#', bracketed IPv6, with '#[' inside} x Encryption/Integrity in {unset, true, false}^2 x cipher list in {'', AES, AESGCM, 'AES,BLOWFISH', 'AES,3DES,BLOWFISH'} x ValidCommands in {none, [443], [443,444]} x lifetime in {0, 60 s, 20 years, 100 years (expiry beyond 2^31-1 s)} x version in {'', long, short} x direction (importer dials / minter dials) x tag; each pair: cache entries compared (id, key, Encryption/Integrity/cipher/commands, expiry), public form searched for the secret, policy text render/parse fixed point, then a real resumption handshake (no negotiation on the wire) with ping/pong both ways, by session id and - when the claim lists commands - by command (the dialer's cache must route tag, peer address and command to the claim session). Plus, for every position of the secret, its replacement by up to 7 substitutes (another digit, the same letter in the other case, the next character, a non-hex letter, an upper-case hex letter, a blank) in both directions, and every history of <= 3 (thorough 4) imports into ONE importer cache over {intact id, id with the first / last secret character altered, intact id of a second claim}: whenever the last import of the claim is the intact id, key and expiry must equal the minter's and resumption must work both ways. Plus the library client (client.ConnectAndAuthenticateWithConfig) over loopback sockets: 8 address templates x {direct, scripted shared_port front end} x direction x tag, by command: the claim session is resumed with ping/pong. Non-trivial = mint succeeded; ids distinct by construction.",
 		Assume: []string{"peer caches are private per case (no process-global state involved)"},
 	}
 	p.Gen = func(tier string, yield func(vlib.Case)) {
